@@ -163,9 +163,14 @@ def mapping(ref_fn: ast.AST, act_fn: ast.AST) -> Dict[str, str]:
     m = {a: r for a, r in m.items() if a not in bad and a != r}
     # a target name must be free: not a local of the actual function that keeps its name, not a builtin/global use
     act_locals = local_names(act_fn)
-    staying = act_locals - set(m)
     free_names = {n.id for n in ast.walk(act_fn) if isinstance(n, ast.Name)} - act_locals
-    m = {a: r for a, r in m.items() if r not in staying and r not in free_names and r not in _BUILTINS}
+    # to a fixpoint: a rename that is dropped makes its source name "staying", which can invalidate another rename onto that name
+    while True:
+        staying = act_locals - set(m)
+        m2 = {a: r for a, r in m.items() if r not in staying and r not in free_names and r not in _BUILTINS}
+        if len(m2) == len(m):
+            break
+        m = m2
     return m
 
 
